@@ -20,6 +20,11 @@ ASSUMPTIONS = ['the end-to-end clause (patch reproduces B) is evaluated on the i
 FAULTS = ['none', 'ser', 'open', 'write', 'close']
 SHIFTED = [(['a', 'b', 'c', 'd', 'e'], ['b', 'c', 'X', 'e']), ([1, 2, 3, 4, 5, 6], [0, 1, 2, 9, 4, 5, 6, 7]), ({'k': ['p', 'q', 'r', 's']}, {'k': ['q', 'Z', 's', 't']}),
            ([10, 20, 30, 40], [20, 30, 41]),
+           # a list with several separate edits where a removed value still exists in the new list: an element moved, one of two duplicates dropped
+           ({'queue': ['a', 'b', 'c', 'd', 'e']}, {'queue': ['e', 'a', 'b', 'c', 'd']}), (['x', 'y', 'x', 'z', 'w'], ['y', 'x', 'z', 'w', 'q']), ({'l': [1, 2, 3, 1, 4]}, {'l': [0, 2, 3, 1, 4, 5]}),
+           ([5, 6, 7, 8, 9, 5], [6, 7, 5, 8, 9]), ({'jobs': ['fetch', 'lint', 'build', 'test']}, {'jobs': ['lint', 'build', 'fetch', 'test', 'ship']}),
+           # the document itself is an array of plain values with several separate edits
+           ([10, 20, 30, 40, 50, 60, 70], [10, 15, 20, 30, 40, 50, 70]), (['a', 'b', 'c', 'd', 'e', 'f'], ['b', 'c', 'd', 'X', 'e', 'f', 'g']),
            # several lists of one document rebuilt from recorded opcodes (items inserted at the front and at the end), side by side and nested
            ({'tags': ['a', 'b', 'c', 'd'], 'ids': [1, 2, 3, 4, 5]}, {'tags': ['start', 'a', 'b', 'c', 'd', 'end'], 'ids': [0, 1, 2, 3, 4, 5, 6]}),
            ({'x': {'l': [1, 2, 3, 4]}, 'y': [{'m': ['p', 'q', 'r', 's']}], 'z': ['u', 'v', 'w', 'x']},
@@ -117,7 +122,7 @@ def run(ctx, impl_only=False):
             keys=['a', 'b', 'c', 'dd', 'k 1', 'é', "it's"], kinds=('dict', 'list'), max_depth=3, max_width=4)
     gp = Gen(ctx.rng, scalars=[None, True, 0, 1, 2, 1.5, 'a', 'b', ''], keys=['a', 'b', '__p', '__q r', 'old_value', 'new_type'], kinds=('dict', 'list'), max_depth=3, max_width=4)
     findings = {f['id']: f for f in core.load_findings(ID) if f.get('status') == 'open'}
-    n = 160 if ctx.thorough() else 36
+    n = 160 if ctx.thorough() else 44
     tmp = tempfile.mkdtemp(prefix='verif_c20_')
     lines, metas = [], []
     try:
